@@ -564,8 +564,9 @@ static void frameTwinCheck(World &w) {
                 double ca = kv.second, cb = itb->second;
                 bool costSame = std::fabs(ca - cb) <= 1e-6 * std::max(1.0, std::fabs(ca));
                 Violation v; v.prop = "C20"; v.clause = "frame"; v.session = (int)bi; v.op = -1;
+                std::string edgeCls = B->spec["cfg"].str("style", "").find("end-points-on-shape-sides") != std::string::npos ? ":end-points-on-shape-sides" : "";
                 if (!costSame) {
-                    v.sig = translate ? "translation-changes-route-cost" : "symmetry-changes-route-cost";
+                    v.sig = (translate ? "translation-changes-route-cost" : "symmetry-changes-route-cost") + edgeCls;
                     v.detail = fmt("transaction %zu conn %d: cost %.9f vs %.9f (%s %s, frame %s)", t, kv.first, ca, cb, A->ortho ? "ortho" : "poly", translate ? "translate" : "sym", fr.dump().c_str());
                     w.violate(v); return;
                 }
@@ -575,7 +576,7 @@ static void frameTwinCheck(World &w) {
                     double dx = fr.num("dx", 0), dy = fr.num("dy", 0), tol = A->ortho ? 1e-9 : 0;
                     for (size_t i = 0; same && i < ra.size(); i++) if (std::fabs(ra[i].x + dx - rb[i].x) > tol || std::fabs(ra[i].y + dy - rb[i].y) > tol) same = false;
                     if (!same) {
-                        v.sig = "translation-changes-route-among-equal-cost-routes";
+                        v.sig = "translation-changes-route-among-equal-cost-routes" + edgeCls;
                         v.detail = fmt("transaction %zu conn %d: same cost %.9f but a different route after translating by (%g,%g)", t, kv.first, ca, dx, dy);
                         w.violate(v); return;
                     }
